@@ -251,6 +251,16 @@ Definition to_model (n : nat) (s : heap) : res (heap * list entry) :=
   | _ => Err EAttr
   end.
 
+(* Directory.swhid() / Content.swhid() = CoreSWHID(type of the class, self.hash): the
+   object id is the hash, read through the `hash` property; the generic
+   MerkleNode classes have no such method (AttributeError) *)
+Definition swhid (n : nat) (s : heap) : res (heap * bytes) :=
+  x <- get s n ;;
+  match kind x with
+  | KDir | KContent => read_hash n s
+  | _ => Err EAttr
+  end.
+
 (* ---- collect_node / collect / reset_collect.  `{self}` hashes the node:
    __hash__ reads self.hash. *)
 Definition collect_node (n : nat) (s : heap) : res (heap * list nat) :=
@@ -470,7 +480,8 @@ Inductive op :=
 | OToModel (n : nat)
 | OCollect (n : nat)
 | OReset (n : nat)
-| OWrite (n : nat) (d : bytes).     (* node.data = d, out of band: no invalidation *)
+| OWrite (n : nat) (d : bytes)      (* node.data = d, out of band: no invalidation *)
+| OSwhid (n : nat).                 (* Directory.swhid() / Content.swhid(): the identifier derived from .hash *)
 
 Inductive out :=
 | OutUnit | OutHandle (n : nat) | OutBool (b : bool) | OutHash (h : bytes)
@@ -503,6 +514,7 @@ Definition step (s : heap) (o : op) : heap * out :=
   | OCollect n => of_res s (collect NH old_truthy (S (length s)) n s) OutNodes
   | OReset n => match reset_collect (S (length s)) n s with Ok s' => (s', OutUnit) | Err e => (s, OutErr e) end
   | OWrite n d => match get s n with Ok _ => (upd n (set_data d) s, OutUnit) | Err e => (s, OutErr e) end
+  | OSwhid n => of_res s (swhid NH old_truthy n s) OutHash
   end.
 
 (* run a history from a state, collecting the outputs *)
